@@ -74,6 +74,12 @@ def exact_root(val: Fraction, k: int) -> Fraction:
     return 1 / r if neg else r
 
 
+def _log10(fr: Fraction) -> float:
+    import math
+
+    return (math.log10(fr.numerator) if fr.numerator > 0 else 0.0) - math.log10(fr.denominator)
+
+
 class Size:
     __slots__ = ("value", "roots")
 
@@ -271,6 +277,20 @@ class Oracle:
         u.prefix = unit.prefix
         u.factors = {f: e for f, e in unit.factors.items() if f is self.One or any(declared_dimension(f).exponents)}
         return u
+
+    def dynamic_range(self, unit) -> float:
+        """Σ |e|·|log10 size(f)| + |log10 prefix|: an upper bound (in decades) on any partial
+        product the planner can form from this unit's factors"""
+        import math
+
+        p = prefix_value(unit.prefix)
+        total = abs(math.log10(p)) if p > 0 else 0.0
+        for f, e in unit.factors.items():
+            if f is self.One:
+                continue
+            v = self.size[f].value
+            total += abs(e) * abs(_log10(v))
+        return total
 
     def ratio(self, src, dst):
         """size(src)/size(dst) as an interval (lo, hi), or None when the declarations do
